@@ -208,6 +208,15 @@ class Scripted:
         self.answers = []         # what was returned (object), or the exception
         self.learn_calls = []     # (batched?, context, action, reward, probability, kwargs)
         self.score_calls = []     # (batched?, context, actions, action)
+        # phase 6 (aliasing): a learner that OWNS its answer data and hands the same objects out again - the kwargs mapping and the
+        # PMF list of a row are built once and returned on every later call for that row (case["reuse_answers"]); `handed` keeps a
+        # by-value snapshot of every such object taken when it was built
+        self.reuse = bool(case.get("reuse_answers"))
+        self.cache = {}
+        self.handed = []          # (what, object, snapshot)
+        # a caller that reuses ONE action list object and changes it in place (case["drop"] == "inplace"): what the learner was
+        # offered must be recorded by value at the time of the call
+        self.snap_actions = case.get("drop") == "inplace"
 
     # ---- one row
     def _row(self, context, actions):
@@ -220,13 +229,29 @@ class Scripted:
             return dec(enc(a))            # an equal but freshly built object (ambiguous un-hinted answer; (A) only)
         return a                          # the offered object itself
 
+    def _owned(self, what, row, build):
+        key = (what, id(row))
+        if key not in self.cache:
+            obj = build()
+            self.cache[key] = obj
+            self.handed.append((what, obj, enc(obj)))
+        return self.cache[key]
+
+    def mutated(self):
+        """learner-owned answer objects whose content is no longer what the learner built"""
+        return [(what, snap, enc(obj)) for what, obj, snap in self.handed if enc(obj) != snap]
+
     def _pmf(self, row, actions):
+        if self.reuse and self.answer == "offered":
+            return self._owned("pmf", row, lambda: (lambda pmf: pmf if self.case.get("pmf_type", "list") == "list" else tuple(pmf))([dec(x) for x in row["pmf"]]))
         pmf = [dec(x) for x in row["pmf"]]
         if self.answer == "alias":        # PMF entries that equal an offered action ARE that object ((A) only)
             pmf = [next((a for a in actions if type(a) is type(x) and a == x), x) for x in pmf]
         return pmf if self.case.get("pmf_type", "list") == "list" else tuple(pmf)
 
     def _kwargs(self, row):
+        if self.reuse:
+            return self._owned("kwargs", row, lambda: as_mapping({dec(k): dec(v) for k, v in row["kwargs"]}, self.case.get("kwmap")))
         return as_mapping({dec(k): dec(v) for k, v in row["kwargs"]}, self.case.get("kwmap"))
 
     def _core(self, row, actions):
@@ -256,7 +281,10 @@ class Scripted:
     # ---- the learner interface
     def predict(self, context, actions):
         batched = is_batch(context) or is_batch(actions)
-        self.predict_calls.append((batched, context, actions))
+        seen = actions
+        if self.snap_actions:
+            seen = [list(a) for a in actions] if is_batch(actions) else list(actions)
+        self.predict_calls.append((batched, context, seen))
         try:
             out = self._predict(batched, context, actions)
         except BaseException as e:
